@@ -252,7 +252,8 @@ def idw(rec, key, det, ds, slon, slat, qlon, qlat, qconv, tol, kw, rng, E):
         if k < len(o) and k == ms and k > 0 and abs(d[o[k]] - d[o[k - 1]]) < 1e-9:
             amb = True
         if inr and d[inr[0]] == 0:
-            exp.append(("exact", [inr[0]], [1.0]))
+            # co-located stations: any of those at zero distance is "the station itself"
+            exp.append(("exact", [int(i) for i in np.flatnonzero(d == 0)], [1.0]))
         elif len(inr) < 2:
             exp.append(("nan", [], []))
         else:
@@ -275,9 +276,9 @@ def idw(rec, key, det, ds, slon, slat, qlon, qlat, qconv, tol, kw, rng, E):
             good = np.isnan(got[k]).all()
         else:
             ref = sum(wi * E[:, i] for wi, i in zip(w, ids))
-            good = close(got[k], ref, 1e-9)[0]
+            good = close(got[k], ref, 1e-9)[0] if kind != "exact" else False
             if kind == "exact":
-                good = np.array_equal(got[k], E[:, ids[0]])
+                good = any(np.array_equal(got[k], E[:, i]) for i in ids)
         if not good:
             dn = np.sqrt((to360(slon) - to360(qlon[k])) ** 2 + (slat - qlat[k]) ** 2)
             on = [i for i in np.argsort(dn, kind="stable") if dn[i] <= tol][:ms]
